@@ -65,6 +65,9 @@ def run(F, rep):
     if getattr(F, "cfg", "dev") == "dev":
         vint_rule(F, rep, "C03-VINT")
     zz_rule(F, rep, "C03-ZZ")
+    # raw lengths are coded against segment_size + k: the reader has to take the segment size the writer recorded in params
+    from rules import c02
+    c02.params_len_rule(F, rep, "C03-PARAMS")
 
 
 def cursor_rule(F, rep, rule="C03-BATCH"):
